@@ -52,6 +52,25 @@ def generate(tier, rng):
                 fr.append(gens.arp_req(d, spa=s, sha=bytes(rng.randrange(256) for _ in range(6)),
                                        eth_src=bytes(rng.randrange(256) for _ in range(6)), mac_dst=cfg.mac))
         yield Script(cfg, fr, "all-reply-kinds")
+    # self-IP lists that hold multicast / broadcast addresses next to unicast ones; requests sent TO the group address
+    groups4, groups6 = ["224.0.0.251", "239.1.2.3", "255.255.255.255", "10.0.0.255"], ["ff02::fb", "ff05::1:3"]
+    for lists in ([gens.SELF4, gens.SELF6] + groups4 + groups6, groups4 + groups6 + ["10.11.12.13"]):
+        cfg = Cfg(self_ips=lists, key=(5, 6))
+        fr = []
+        for g in groups4:
+            gb = net.ip_bytes(g)
+            mac = b"\xff" * 6 if g == "255.255.255.255" else b"\x01\x00\x5e" + bytes([gb[1] & 0x7f]) + gb[2:]
+            fr.append(gens.echo4(gens.PEER4, g, mac_dst=mac))
+            fr.append(net.frame_udp(gens.PEER4, g, 4000, 3478, gens.stun_req(), mac_dst=mac))
+            fr.append(net.frame_udp(gens.PEER4, g, 4000, 53, gens.dns_query(), mac_dst=mac))
+            fr.append(net.frame_tcp(gens.PEER4, g, 4000, 80, 1, 0, 0x02, mac_dst=mac))
+        for g in groups6:
+            gb = net.ip_bytes(g)
+            mac = b"\x33\x33\xff" + gb[13:]
+            for m in (mac, cfg.mac):
+                fr.append(gens.echo6(gens.PEER6, g, mac_dst=m))
+                fr.append(net.frame_udp(gens.PEER6, g, 4000, 3478, gens.stun_req(), mac_dst=m))
+        yield Script(cfg, fr, "group-addresses-in-self-list")
     # requests whose own header fields lie or are unusual (incl. neighbour solicitations from :: and link-local sources)
     yield Script(Cfg(key=(5, 6)), gens.hostile_requests(rng), "hostile-requests")
 
